@@ -924,6 +924,17 @@ MUTANTS = [
         (CSL_H, "                    new_node->set_next(level, next);\n                    __TBB_ASSERT(new_node->height() > level, \"Internal structure break\");", "                    __TBB_ASSERT(new_node->height() > level, \"Internal structure break\");")]),
     dict(name='c12-skiplist-keep-rejected', prop='C12', clause='D3', edits=[
         (CSL_H, "        if (!insert_result.second) {\n            delete_value_node(new_node);\n        }\n        return insert_result;", "        return insert_result;")]),
+    dict(name='c12-seed3-rehash-installs-unrounded-count', prop='C12', clause='D5', edits=[('include/oneapi/tbb/detail/_concurrent_unordered_base.h',
+        """        if (current_bucket_count < bucket_count) {
+            // TODO: do we need do-while here?
+            my_bucket_count.compare_exchange_strong(current_bucket_count, round_up_to_power_of_two(bucket_count));""",
+        """        bucket_count = std::max(round_up_to_power_of_two(bucket_count), size_type(float(size()) / max_load_factor()));
+        if (current_bucket_count < bucket_count) {
+            // TODO: do we need do-while here?
+            my_bucket_count.compare_exchange_strong(current_bucket_count, bucket_count);""")]),
+    dict(name='c12-doubling-without-upper-bound', prop='C12', clause='D5', edits=[('include/oneapi/tbb/detail/_concurrent_unordered_base.h',
+        "        if ( current_size < highest_bucket_count && (float(total_elements) / float(current_size)) > my_max_load_factor ) {",
+        "        if ( (float(total_elements) / float(current_size)) > my_max_load_factor ) {")]),
     # ---------------------------------------------------------------- C13
     dict(name='c13-empty-pop-no-status', prop='C13', clause='D2', edits=[
         (CPQ_H, "            if (data.empty()) {\n                tmp->status.store(uintptr_t(FAILED), std::memory_order_release);\n            } else {", "            if (data.empty()) {\n            } else {")]),
@@ -1212,6 +1223,8 @@ BENIGN = [
                 throw_exception(exception_id::bad_alloc);
             }
         } else {""")]),
+    dict(name='c12-b-doubling-by-shift', prop='C12', edits=[('include/oneapi/tbb/detail/_concurrent_unordered_base.h',
+        "            my_bucket_count.compare_exchange_strong(current_size, 2u * current_size);", "            my_bucket_count.compare_exchange_strong(current_size, current_size << 1);")]),
     dict(name='c05-b-ratio-operands-commuted', prop='C05', edits=[('include/oneapi/tbb/blocked_range2d.h',
         "        if ( my_rows.size()*double(my_cols.grainsize()) < my_cols.size()*double(my_rows.grainsize()) ) {",
         "        if ( double(my_cols.grainsize())*my_rows.size() < double(my_rows.grainsize())*my_cols.size() ) {")]),
